@@ -36,6 +36,9 @@ SrcOfId(P, v) == IF \E s \in DOMAIN P : \E k \in DOMAIN P[s] : P[s][k].v = v
                  THEN CHOOSE s \in DOMAIN P : \E k \in DOMAIN P[s] : P[s][k].v = v ELSE 0
 DecJoinS(o) == [t |-> o.t, g |-> GidInv(o.g), vals |-> o.vals]
 DecJoinB(o) == [t |-> o.t, g |-> GidInv(o.g), pts |-> { [t |-> q.t, vals |-> q.vals] : q \in Range(o.pts) }]
+(* drift level: also the order of the points inside the joined batch (JoinBatch.tla) *)
+DecJoinBI(o) == [t |-> o.t, g |-> GidInv(o.g), pts |-> { [t |-> q.t, vals |-> q.vals] : q \in Range(o.pts) },
+                 seq |-> [i \in DOMAIN o.pts |-> [t |-> o.pts[i].t, vals |-> o.pts[i].vals]]]
 DecUnion(P, o) == [src |-> SrcOfId(P, o.v), t |-> o.t, g |-> GidInv(o.g), v |-> o.v]
 Dec(P, o) == IF cfg.kind = "union" THEN DecUnion(P, o)
              ELSE IF cfg.edge = "batch" THEN DecJoinB(o) ELSE DecJoinS(o)
@@ -168,7 +171,8 @@ SameOuts(logged) ==
     IF cfg.kind = "union"
     THEN [i \in DOMAIN NewOuts |-> NewOuts[i].v] = [i \in DOMAIN logged |-> logged[i].v]
     ELSE /\ Len(NewOuts) = Len(logged)
-         /\ Range(NewOuts) = Range(DecAll(parents, logged))
+         /\ Range(NewOuts) = IF cfg.edge = "batch" THEN { DecJoinBI(logged[i]) : i \in DOMAIN logged }
+                              ELSE Range(DecAll(parents, logged))
 
 IDeliver ==
     /\ IsEv("Deliver")
